@@ -53,7 +53,8 @@ def check(an, rep, tier):
     wh = {'utils._reshape', 'transformation.truncate', 'svd.matrix_svd', 'svd.matrix_skeleton',
           'act_many.add_many'}
     runs = sweep(an, rep, ['transformation.truncate', 'act_many.add_many'], ds,
-                 rules=S_RULES + ['U-cmp', 'U-cmp-lg', 'O-gram', 'G-cancel'],
+                 rules=S_RULES + ['U-cmp', 'U-cmp-lg', 'O-gram', 'G-cancel',
+                                 'G-sqrt'],
                  wheres=wh)
     for r in runs:
         if r.qualname != 'transformation.truncate':
